@@ -67,6 +67,70 @@ def _first_diff(a, b):
     return None
 
 
+def _fixed_program(report, prog, matrix, family):
+    """Build harness/cpp/<prog>.cpp under every entry of the matrix: it must compile everywhere, print the same bytes, and every
+    amc section must equal the std:: reference section of its family.  -> (found, evaluations, compared pairs, distinct)"""
+    found = False
+    evals = 0
+    compared = []
+    distinct = set()
+    src = "harness/cpp/%s.cpp" % prog
+    builds = {label: build.build("c16-%s-%s" % (prog, label), [(prog, prog + ".cpp", [])], None, flags, std=std) for label, std, flags in matrix}
+    outs = {}
+    ref_label = matrix[0][0]
+    for label, _, _ in matrix:
+        bdir, errs = builds[label]
+        if prog in errs:
+            msg = errs[prog]
+            first = [l for l in msg.split("\n") if "error" in l][:3]
+            report.violation({"program": src, "build": label, "expected": "the program compiles under every language level (it does with the std:: containers in place of the amc ones)",
+                              "observed": "\n".join(first) or msg[-1500:], "compiler_output": msg[-3000:], "found_by": "API program", "no_failing_input_found": False},
+                             "%s does not compile under %s: %s" % (src, label, (first or ["?"])[0][:300]))
+            found = True
+            continue
+        rc, so, se = C.run([os.path.join(bdir, prog)], timeout=300)
+        outs[label] = so.split("\n") if rc == 0 else ["<exit %d> %s" % (rc, se[-300:])] + so.split("\n")
+        evals += len(outs[label])
+        distinct.add((prog, label))
+    if ref_label not in outs:
+        return found, evals, compared, distinct
+    sections = {}
+    cur = None
+    for l in outs[ref_label]:
+        if l.startswith("== "):
+            cur = l[3:]
+            sections[cur] = []
+        elif cur is not None and l != "END":
+            sections[cur].append(l)
+    if "END" not in outs[ref_label]:
+        report.violation({"program": src, "build": ref_label, "observed": outs[ref_label][:5], "found_by": "API program", "no_failing_input_found": False},
+                         "%s did not run to its end under %s" % (src, ref_label))
+        found = True
+    refs = [k for k in sections if k.endswith("(reference)")]
+    for k, body in sections.items():
+        fam = [r for r in refs if family(r) == family(k)]
+        if k in refs or not fam or k == "FlatSet":
+            continue
+        d = _first_diff(sections[fam[0]], body)
+        compared.append((k, fam[0], ref_label))
+        if d is not None:
+            report.violation({"program": src, "section": k, "build": ref_label, "std_container_prints": d[1], "amc_container_prints": d[2],
+                              "found_by": "API program", "no_failing_input_found": False},
+                             "%s [%s] %s: differs from the std:: container running the same calls\n  %s\n  %s" % (prog, ref_label, k, d[1][:200], d[2][:200]))
+            found = True
+    for label, lines_out in outs.items():
+        if label == ref_label:
+            continue
+        compared.append((prog, ref_label, label))
+        d = _first_diff(outs[ref_label], lines_out)
+        if d is not None:
+            report.violation({"program": src, "build_a": ref_label, "build_b": label, "line": d[0], "output_a": d[1][:600], "output_b": d[2][:600],
+                              "found_by": "API program", "no_failing_input_found": False},
+                             "%s: output differs between %s and %s at line %d\n  %s\n  %s" % (prog, ref_label, label, d[0] + 1, d[1][:300], d[2][:300]))
+            found = True
+    return found, evals, compared, distinct
+
+
 def check(report, tier):
     ok, broken = coqbuild.check_property("C16", report, extra_files=coqbuild.TVX_FILES + coqbuild.TV_FILES + ["SwapGuardTV.v"])
     th = tier == "thorough"
@@ -169,60 +233,16 @@ def check(report, tier):
                                   "found_by": "transcript comparison", "no_failing_input_found": False},
                                  "%s: transcripts differ between %s and %s\n  %s\n  %s" % (name, sm[0][0], label, x[:300], y[:300]))
                 found = True
-    # ---- one fixed program over the API the script language cannot express (harness/cpp/apiprog.cpp), C++11 and later
-    am = vm + [("c++17.O2.ndebug.extras", "c++17", ["-O2", "-DNDEBUG", "-DAMC_NONSTD_FEATURES"])]
-    abuilds = {label: build.build("c16-api-" + label, [("apiprog", "apiprog.cpp", [])], None, flags, std=std) for label, std, flags in am}
-    aout = {}
-    for label, _, _ in am:
-        bdir, errs = abuilds[label]
-        if "apiprog" in errs:
-            msg = errs["apiprog"]
-            first = [l for l in msg.split("\n") if "error" in l][:3]
-            report.violation({"program": "harness/cpp/apiprog.cpp", "build": label, "expected": "the program compiles under every language level (it does with std::vector / std::set in place of the amc containers)",
-                              "observed": "\n".join(first) or msg[-1500:], "compiler_output": msg[-3000:], "found_by": "API program", "no_failing_input_found": False},
-                             "harness/cpp/apiprog.cpp does not compile under %s: %s" % (label, (first or ["?"])[0][:300]))
-            found = True
-            continue
-        rc, so, se = C.run([os.path.join(bdir, "apiprog")], timeout=300)
-        aout[label] = so.split("\n") if rc == 0 else ["<exit %d> %s" % (rc, se[-300:])] + so.split("\n")
-        evals += len(aout[label])
-        distinct.add(("apiprog", label))
-    if ref_label in aout:
-        sections = {}
-        cur = None
-        for l in aout[ref_label]:
-            if l.startswith("== "):
-                cur = l[3:]
-                sections[cur] = []
-            elif cur is not None and l != "END":
-                sections[cur].append(l)
-        if not aout[ref_label] or "END" not in aout[ref_label]:
-            report.violation({"program": "harness/cpp/apiprog.cpp", "build": ref_label, "observed": aout[ref_label][:5], "found_by": "API program", "no_failing_input_found": False},
-                             "harness/cpp/apiprog.cpp did not run to its end under %s" % ref_label)
-            found = True
-        # within one build: each amc section equals the std:: reference section of its group
-        refs = [k for k in sections if k.endswith("(reference)")]
-        for k, body in sections.items():
-            fam = [r for r in refs if (("PB" in r) == ("PB" in k)) and (("string" in r) == ("string" in k))]
-            if k in refs or k == "FlatSet" or not fam:
-                continue
-            d = _first_diff(sections[fam[0]], body)
-            compared.append((k, fam[0], ref_label))
-            if d is not None:
-                report.violation({"program": "harness/cpp/apiprog.cpp", "section": k, "build": ref_label, "std_container_prints": d[1], "amc_container_prints": d[2],
-                                  "found_by": "API program", "no_failing_input_found": False},
-                                 "apiprog [%s] %s: differs from the std:: container running the same calls\n  %s\n  %s" % (ref_label, k, d[1][:200], d[2][:200]))
-                found = True
-        for label, lines_out in aout.items():
-            if label == ref_label:
-                continue
-            compared.append(("apiprog", ref_label, label))
-            d = _first_diff(aout[ref_label], lines_out)
-            if d is not None:
-                report.violation({"program": "harness/cpp/apiprog.cpp", "build_a": ref_label, "build_b": label, "line": d[0], "output_a": d[1][:600], "output_b": d[2][:600],
-                                  "found_by": "API program", "no_failing_input_found": False},
-                                 "apiprog: output differs between %s and %s at line %d\n  %s\n  %s" % (ref_label, label, d[0] + 1, d[1][:300], d[2][:300]))
-                found = True
+    # ---- fixed programs over the API the script language cannot express (harness/cpp/apiprog.cpp: C++11 and later, vectors
+    #      and FlatSet; harness/cpp/setprog.cpp: C++17 and later, the std::set API with class element types)
+    extras = ("c++17.O2.ndebug.extras", "c++17", ["-O2", "-DNDEBUG", "-DAMC_NONSTD_FEATURES"])
+    for prog, matrix, family in (("apiprog", vm + [extras], lambda k: (("PB" in k), ("string" in k))),
+                                 ("setprog", sm + [extras], lambda k: ("Rec" in k,))):
+        f, e, cmpd, dist = _fixed_program(report, prog, matrix, family)
+        found = found or f
+        evals += e
+        compared += cmpd
+        distinct |= dist
     # ---- compile probes
     pdir = os.path.join(C.CACHE, "c16-probes")
     os.makedirs(pdir, exist_ok=True)
@@ -277,12 +297,13 @@ def replay(payload):
             if not label or label not in labels:
                 continue
             std, flags = labels[label]
-            bdir, errs = build.build("c16-api-" + label, [("apiprog", "apiprog.cpp", [])], None, flags, std=std)
-            if "apiprog" in errs:
-                print("\n".join([l for l in errs["apiprog"].split("\n") if "error" in l][:5]))
-                print("VIOLATION property=C16 replay=(replayed: apiprog.cpp does not compile under %s)" % label)
+            prog = os.path.basename(payload["program"])[:-4]
+            bdir, errs = build.build("c16-%s-%s" % (prog, label), [(prog, prog + ".cpp", [])], None, flags, std=std)
+            if prog in errs:
+                print("\n".join([l for l in errs[prog].split("\n") if "error" in l][:5]))
+                print("VIOLATION property=C16 replay=(replayed: %s.cpp does not compile under %s)" % (prog, label))
                 return 1
-            rc, so, se = C.run([os.path.join(bdir, "apiprog")], timeout=300)
+            rc, so, se = C.run([os.path.join(bdir, prog)], timeout=300)
             outs[key] = so.split("\n")
         if "build_a" in outs and "build_b" in outs and _first_diff(outs["build_a"], outs["build_b"]) is not None:
             print("  %s\n  %s" % _first_diff(outs["build_a"], outs["build_b"])[1:])
@@ -297,7 +318,7 @@ def replay(payload):
                 elif cur:
                     secs[cur].append(l)
             k = payload["section"]
-            fam = [r for r in secs if r.endswith("(reference)") and (("PB" in r) == ("PB" in k)) and (("string" in r) == ("string" in k))]
+            fam = [r for r in secs if r.endswith("(reference)") and (("PB" in r) == ("PB" in k)) and (("string" in r) == ("string" in k)) and (("Rec" in r) == ("Rec" in k))]
             if fam and k in secs and secs[k] != secs[fam[0]]:
                 print("VIOLATION property=C16 replay=(replayed: section %s differs from the std:: reference)" % k)
                 return 1
